@@ -4,6 +4,7 @@ import (
 	"fmt"
 	"go/token"
 	"go/types"
+	"os"
 	"sort"
 	"strings"
 
@@ -11,30 +12,30 @@ import (
 )
 
 type Obligation struct {
-	Fn     string
-	Kind   string // bounds nil pre post inv.entry inv.step panic div callsite mon lockset balance cover typeassert lemma
-	Label  string // stable label from the contract clause, or ""
-	Name   string // stable obligation name used in expected/known-findings files
-	Pos    string
-	Desc   string
-	Hyp    *Term
-	Goal   *Term
+	Fn      string
+	Kind    string // bounds nil pre post inv.entry inv.step panic div callsite mon lockset balance cover typeassert lemma
+	Label   string // stable label from the contract clause, or ""
+	Name    string // stable obligation name used in expected/known-findings files
+	Pos     string
+	Desc    string
+	Hyp     *Term
+	Goal    *Term
 	WantSat bool // cover obligations: the query Hyp (without goal negation) must be SAT
 
-	Status string // proved failed unknown sat(unsat for cover) simplified
-	Solver string
-	Secs   float64
-	Model  string
-	Query  string
-	queryCVC string
+	Status      string // proved failed unknown sat(unsat for cover) simplified
+	Solver      string
+	Secs        float64
+	Model       string
+	Query       string
+	queryCVC    string
 	queryPrefer string
-	queryQF string
-	Candidate bool // Model is a candidate counterexample from a weakened query
-	Prefer []*Term
-	AuxNames []string
-	AuxVals  []*Term
-	Vals   []*Term // terms whose model values are wanted for replay
-	ValNames []string
+	queryQF     string
+	Candidate   bool // Model is a candidate counterexample from a weakened query
+	Prefer      []*Term
+	AuxNames    []string
+	AuxVals     []*Term
+	Vals        []*Term // terms whose model values are wanted for replay
+	ValNames    []string
 }
 
 type Frame struct {
@@ -54,10 +55,10 @@ type Frame struct {
 	Rets       []*retRec
 	// states in which a call marked `maypanic` panicked (explored after the normal paths)
 	PanicStates []*State
-	edgePC     map[[2]int]*Term
-	EntryState *State
-	callOrd    map[string]int
-	Exec       *Exec
+	edgePC      map[[2]int]*Term
+	EntryState  *State
+	callOrd     map[string]int
+	Exec        *Exec
 }
 
 type retRec struct {
@@ -67,53 +68,54 @@ type retRec struct {
 }
 
 type Exec struct {
-	E         *Env
-	epochMerge map[int]*epochMergeRec
-	curIns     ssa.Instruction
+	E              *Env
+	epochMerge     map[int]*epochMergeRec
+	LockOnly       bool
+	curIns         ssa.Instruction
 	usableLS       map[string]*LoopSpec
 	loopProbeState *State
-	ghostGoTypes map[string]types.Type
-	pre       map[string]*Term
-	heapSorts map[string]*Sort
-	Obls      []*Obligation
-	probe     bool
-	cellSeq   int
-	frameSeq  int
-	TopFn     *ssa.Function
-	TopKey    string
-	TopSpec   *FuncSpec
-	TopFrame  *Frame
-	Entry     *State // entry state of the top function (for old)
-	LockMode  bool
+	ghostGoTypes   map[string]types.Type
+	pre            map[string]*Term
+	heapSorts      map[string]*Sort
+	Obls           []*Obligation
+	probe          bool
+	cellSeq        int
+	frameSeq       int
+	TopFn          *ssa.Function
+	TopKey         string
+	TopSpec        *FuncSpec
+	TopFrame       *Frame
+	Entry          *State // entry state of the top function (for old)
+	LockMode       bool
 	// houdini
 	cands      map[string][]*Candidate
 	candChecks []*candCheck
 	// bookkeeping for evidence
-	UsedTrusted  map[string]int
-	Uncontracted map[string]int
-	Inlined      map[string]int
-	Abstracted   []string
-	Spawns       []string
-	ghostTypes   map[string]*Sort
-	inlineStack  []*ssa.Function
-	MaxInline    int
-	pathCap      bool
-	iterSeq      int
-	epochHeaps   map[string]*Term
-	epochSeq     int
-	modCache     map[string]*modSet
-	loopEntry    map[string]*State
-	scratchDepth int
-	ImmutableGlobals map[string]bool
-	iteDepth         int
-	Unroll           int
-	SafetyOff        bool
-	SafetyBounds     bool
+	UsedTrusted         map[string]int
+	Uncontracted        map[string]int
+	Inlined             map[string]int
+	Abstracted          []string
+	Spawns              []string
+	ghostTypes          map[string]*Sort
+	inlineStack         []*ssa.Function
+	MaxInline           int
+	pathCap             bool
+	iterSeq             int
+	epochHeaps          map[string]*Term
+	epochSeq            int
+	modCache            map[string]*modSet
+	loopEntry           map[string]*State
+	scratchDepth        int
+	ImmutableGlobals    map[string]bool
+	iteDepth            int
+	Unroll              int
+	SafetyOff           bool
+	SafetyBounds        bool
 	CallsiteAssumptions map[string]int
-	pendingBindings []*Val
-	pendingTypeArgs []types.Type
-	SafetySkipped    int
-	heapTrace        map[string]*Sort
+	pendingBindings     []*Val
+	pendingTypeArgs     []types.Type
+	SafetySkipped       int
+	heapTrace           map[string]*Sort
 }
 
 type Candidate struct {
@@ -148,6 +150,10 @@ func (X *Exec) pos(p token.Pos) string {
 func (X *Exec) oblige(st *State, kind, label, desc string, p token.Pos, goal *Term) {
 	ts := X.E.TS
 	if st.Dead {
+		return
+	}
+	if X.LockOnly && kind != "lockset" {
+		st.assume(ts, goal)
 		return
 	}
 	if X.SafetyBounds && label == "" {
@@ -535,7 +541,9 @@ func (X *Exec) genCandidates(fr *Frame, li *loopInfo, entry *State) []*Candidate
 			allocs = append(allocs, a)
 		}
 	}
-	sort.Slice(allocs, func(i, j int) bool { return allocs[i].Pos() < allocs[j].Pos() || (allocs[i].Pos() == allocs[j].Pos() && allocs[i].Name() < allocs[j].Name()) })
+	sort.Slice(allocs, func(i, j int) bool {
+		return allocs[i].Pos() < allocs[j].Pos() || (allocs[i].Pos() == allocs[j].Pos() && allocs[i].Name() < allocs[j].Name())
+	})
 	cellVal := func(a *ssa.Alloc) func(fr *Frame, st *State) *Term {
 		return func(fr *Frame, st *State) *Term {
 			c := fr.Cells[a]
@@ -589,7 +597,9 @@ func (X *Exec) genCandidates(fr *Frame, li *loopInfo, entry *State) []*Candidate
 				}
 			}
 		}
-		sort.Slice(sl, func(i, j int) bool { return sl[i].Pos() < sl[j].Pos() || (sl[i].Pos() == sl[j].Pos() && sl[i].Name() < sl[j].Name()) })
+		sort.Slice(sl, func(i, j int) bool {
+			return sl[i].Pos() < sl[j].Pos() || (sl[i].Pos() == sl[j].Pos() && sl[i].Name() < sl[j].Name())
+		})
 		for _, a := range sl {
 			a := a
 			el := fr.Cells[a].Type.Underlying().(*types.Slice).Elem()
@@ -607,6 +617,35 @@ func (X *Exec) genCandidates(fr *Frame, li *loopInfo, entry *State) []*Candidate
 				return ts.Eq(ts.Select(fr.Exec.heap(st, hn, hs), arr), ts.Select(fr.Exec.heap(le, hn, hs), arr))
 			}})
 		}
+	}
+	// lock state: "at the loop head every lock is held exactly as at loop entry" (a body that locks and unlocks)
+	{
+		lkey := X.loopKey(fr, li)
+		var lks []string
+		for hn := range ms.heaps {
+			if strings.HasPrefix(hn, "LK|") {
+				lks = append(lks, hn)
+			}
+		}
+		sort.Strings(lks)
+		if os.Getenv("GOVC_DBG") != "" {
+			fmt.Fprintf(os.Stderr, "genCandidates %s: lock heaps in modset: %v (all=%v, %d heaps)\n", lkey, lks, ms.all, len(ms.heaps))
+		}
+		for _, hn := range lks {
+			hn := hn
+			out = append(out, &Candidate{Desc: "lock state " + hn + " as at loop entry", Alive: true, Eval: func(fr *Frame, st *State) *Term {
+				le := fr.Exec.loopEntry[lkey]
+				if le == nil {
+					return ts.True()
+				}
+				srt := ArraySort(SInt, SInt)
+				return ts.Eq(fr.Exec.heap(st, hn, srt), fr.Exec.heap(le, hn, srt))
+			}})
+		}
+	}
+	if X.LockOnly {
+		// lock sweep: only the lock-state candidates matter (and the cheap cell bounds above)
+		return out
 	}
 	// pairs of modified integer cells: a <= b, a <= b+1
 	if len(allocs) <= 6 {
